@@ -144,7 +144,7 @@ fn c11_fixed_encode_column_i32() {
     let mut data = [0u8; 10];
     let mut offsets = [0usize, 0, 5];
     encode(&mut data, &mut offsets, &v, &nulls, opts);
-    assert!(offsets == [0, 5, 10], "offsets advanced by ENCODED_LEN");
+    assert!(offsets[0] == 0 && offsets[1] == 5 && offsets[2] == 10, "offsets advanced by ENCODED_LEN");
     let r0: [u8; 5] = data[0..5].try_into().unwrap();
     let r1: [u8; 5] = data[5..10].try_into().unwrap();
     let exp = match (valid[0], valid[1]) {
@@ -159,7 +159,9 @@ fn c11_fixed_encode_column_i32() {
         let mut d2 = [0u8; 10];
         let mut o2 = [0usize, 0, 5];
         encode_not_null(&mut d2, &mut o2, &v, opts);
-        assert!(d2 == data && o2 == offsets, "encode_not_null agrees");
+        let q: usize = kani::any();
+        kani::assume(q < 10);
+        assert!(d2[q] == data[q] && o2[1] == 5 && o2[2] == 10, "encode_not_null agrees");
     }
     std::mem::forget(nulls);
     kani::cover!(valid[0] && !valid[1] && opts.descending && !opts.nulls_first);
